@@ -65,7 +65,7 @@ def hexdump_job(L, tier) -> JobResult:
     contents = [bytes((i * 7 + 0x1D) % 256 for i in range(L)), bytes(0x41 + (i % 26) for i in range(L)), b"\xff" * L]
     for ci, data in enumerate(contents):
         for offset in (0, 1, 0x10, 0xFFFFFFF0):
-            for prefix in ("", "> "):
+            for prefix in ("", "> ", "{x} ", "{", "{0}}", "%s "):
                 res.evaluations += 1
                 res.states += 1
                 res.transitions += 2
@@ -119,6 +119,7 @@ STRUCT_TEXTS = [
     "enum E : uint8 { A = 1 }; struct S { E e; E arr[2]; uint8 *p; wchar w[2]; float f; };",
     "struct I { uint8 x; }; struct S { I i; I arr[2]; uint8 m[2][2]; char c[3]; uint32 big; uint8 x1; uint8 x2; uint8 x3; uint8 x4; uint8 x5; uint8 x6; };",
     "struct S { uint16 a : 1; uint16 b : 15; uint8 c : 8; uint8 d; };",
+    "struct S { uint8 _; uint16 _; uint8 a; uint8 _; };",
 ]
 
 
